@@ -112,6 +112,14 @@ Section Req.
 
   (* every request kind except the listing after a whole-collection PUT and the predefined collections
      of a first login (see c12_putcoll, c12_home below) *)
+  Lemma get_target_12 : forall cs c x s t, (forall c0, In c0 cs -> is_data c0 = true) -> In c cs -> coll_path c = true ->
+    J12 cs s t -> WP (get_target lay c x) (J12 cs) s t.
+  Proof.
+    intros cs c x s t Hcd Hin Hc H. apply calm_WP; [|exact H].
+    apply (calm_get_target _ (J12_ok cs Hcd) (J12_fail cs) c); [ | apply coll_ne; exact Hc | apply coll_is_data; exact Hc].
+    intros s0 t0 [_ Hd]. apply Hd. exact Hin.
+  Qed.
+
   Lemma J12_mon : forall cs s t, J12 cs s t -> TQ (IG (GX [])) s t.
   Proof. intros cs s t [Hm _]. exact Hm. Qed.
 
@@ -125,13 +133,15 @@ Section Req.
     - (* RPutItem *) destruct Hwf as [Hc Hh].
       assert (Hcd : forall c0, In c0 [c] -> is_data c0 = true) by (intros c0 Hi; apply in1 in Hi; subst; apply coll_is_data; exact Hc).
       apply WP_read. intros n.
+      assert (Hup : forall s1 t1, J12 [c] s1 t1 -> WP (upload lay c h v exp) (TQ (IG (GX []))) s1 t1).
+      { intros s1 t1 H1. eapply WP_mono; [apply J12_mon | apply upload_c12; assumption]. }
       assert (Hgo : forall xs, WP (Seq (get_many lay c xs false) (upload lay c h v exp)) (TQ (IG (GX []))) s t).
-      { intro xs. eapply WP_seq; [apply (get_many_12 [c]); auto; left; reflexivity|]. intros s1 t1 H1.
-        eapply WP_mono; [apply J12_mon | apply upload_c12; assumption]. }
-      destruct n as [[|v0]|]; apply Hgo.
+      { intro xs. eapply WP_seq; [apply (get_many_12 [c]); auto; left; reflexivity | exact Hup]. }
+      destruct n as [[|v0]|]; try apply Hgo.
+      eapply WP_seq; [apply (get_target_12 [c]); auto; left; reflexivity | exact Hup].
     - (* RDeleteItem *) destruct Hwf as [Hc Hh].
       assert (Hcd : forall c0, In c0 [c] -> is_data c0 = true) by (intros c0 Hi; apply in1 in Hi; subst; apply coll_is_data; exact Hc).
-      eapply WP_seq; [apply (get_many_12 [c]); auto; left; reflexivity|]. intros s1 t1 H1.
+      eapply WP_seq; [apply (get_target_12 [c]); auto; left; reflexivity|]. intros s1 t1 H1.
       eapply WP_mono; [apply J12_mon | apply delete_item_c12; assumption].
     - (* RDeleteColl *)
       assert (Hcd : forall c0, In c0 [c] -> is_data c0 = true) by (intros c0 Hi; apply in1 in Hi; subst; apply coll_is_data; exact Hwf).
@@ -140,7 +150,7 @@ Section Req.
       eapply WP_mono; [apply J12_mon | apply delete_coll_c12; [exact Hwf | eapply J12_weaken; [|exact H2]; intros c0 []]].
     - (* RMove *) destruct Hwf as (H1 & H2 & H3 & H4 & H5 & H6).
       assert (Hcd : forall c0, In c0 [c; c'] -> is_data c0 = true) by (intros c0 [<- | [<- | []]]; apply coll_is_data; assumption).
-      cbn [seqs]. eapply WP_seq; [apply (get_many_12 [c; c']); auto; left; reflexivity|]. intros s1 t1 Hs1.
+      cbn [seqs]. eapply WP_seq; [apply (get_target_12 [c; c']); auto; left; reflexivity|]. intros s1 t1 Hs1.
       eapply WP_seq with (M := J12 [c; c']).
       { apply WP_read. intros [[|v0]|]; try (apply (get_many_12 [c; c']); auto; right; left; reflexivity);
           (destruct (path_eqb c c'); [exact Hs1 | apply (get_many_12 [c; c']); auto; right; left; reflexivity]). }
